@@ -10,10 +10,11 @@ import (
 
 // DBIterator wraps the merged LSM iterators and optionally resolves value-log pointers.
 type DBIterator struct {
-	iitr utils.Iterator
-	vlog *valueLog
-	pool *iteratorPool
-	ctx  *iteratorContext
+	counted bool // registered with the value log's open-iterator count
+	iitr    utils.Iterator
+	vlog    *valueLog
+	pool    *iteratorPool
+	ctx     *iteratorContext
 	// keyOnly avoids eager value log materialisation when true.
 	keyOnly bool
 
@@ -96,6 +97,10 @@ func (db *DB) NewIterator(opt *utils.Options) utils.Iterator {
 	itr.item.vlog = db.vlog
 	itr.item.e = &itr.entry
 	itr.iitr = lsm.NewMergeIterator(ctx.iters, !opt.IsAsc)
+	// The iterator resolves value pointers of its snapshot as it goes: keep GC from removing
+	// the segments they point into until it is closed.
+	db.vlog.incrIteratorCount()
+	itr.counted = true
 	return itr
 }
 
@@ -201,6 +206,10 @@ func (iter *DBIterator) Close() error {
 		iter.pool.put(iter.ctx)
 	}
 	iter.ctx = nil
+	if iter.counted {
+		iter.counted = false
+		iter.vlog.decrIteratorCount()
+	}
 	return err
 }
 
